@@ -3,6 +3,7 @@
 (* physical lines: length, trailing backslash, ^Z, LF / CR-LF / no line end on the last one) and one buffer   *)
 (* state; the only step reads the file to its end the way INCLUDE_Processor() does.  Two instances:            *)
 (*   small buffers (cap 12 / 8): EVERY length 0..N, so every position of a chunk boundary in a line occurs    *)
+(*     (files of <= 2 lines; thorough: 3 lines)                                                               *)
 (*   the real buffer (1024/128/128, also pre-grown): the lengths around every boundary the code distinguishes *)
 (*     (fits / LF alone in the next chunk / CR | LF / one more chunk / chunk after a growth), alone, as a      *)
 (*     long first part of a continued statement and behind joined text of 864 / 896 / 897 characters          *)
@@ -17,24 +18,27 @@ Q == Tier = "quick"
 Mid(ns, zs) == {[n |-> n, bs |-> b, z |-> z, eol |-> e] : n \in ns, b \in BOOLEAN, z \in zs, e \in {"lf", "crlf"}}
 Last(ns, zs) == {l \in {[n |-> n, bs |-> FALSE, z |-> z, eol |-> e] : n \in ns, z \in zs, e \in {"lf", "crlf", "none"}} :
                    l.eol = "none" => NBytes(l) > 0}
-\* files of 0..k physical lines; zm / zl: is ^Z tried in front of the line end of the inner / the last line
-FilesOf(ns, k, zm, zl) ==
-  {<<>>} \cup {<<l>> : l \in Last(ns, BOOLEAN)} \cup {<<a, l>> : a \in Mid(ns, zm), l \in Last(ns, zl)}
-  \cup (IF k < 3 THEN {} ELSE {<<a, b, l>> : a \in Mid(ns, {FALSE}), b \in Mid(ns, {FALSE}), l \in Last(ns, zl)})
+\* the variable `file` is a file of 0..k physical lines; zm / zl: is ^Z tried in front of the line end of the inner / the
+\* last line  (written as a predicate: TLC enumerates the choices instead of building the set of all files)
+IsFileOf(ns, k, zm, zl) ==
+  \/ file = <<>>
+  \/ \E l \in Last(ns, BOOLEAN) : file = <<l>>
+  \/ \E a \in Mid(ns, zm), l \in Last(ns, zl) : file = <<a, l>>
+  \/ k >= 3 /\ \E a \in Mid(ns, {FALSE}), b \in Mid(ns, {FALSE}), l \in Last(ns, zl) : file = <<a, b, l>>
 
 SmallBufs == {[cap |-> 12, low |-> 4, grow |-> 4], [cap |-> 8, low |-> 3, grow |-> 5]}
-SmallNs == 0..(IF Q THEN 11 ELSE 15)
+SmallNs == 0..(IF Q THEN 13 ELSE 15)
 
 \* the real buffer: lengths around the boundaries, for the joined lengths t the continued shapes produce
-Joined == IF Q THEN {0, 864} ELSE {0, 864, 896, 897}
+Joined == {0, 864, 896, 897}
 RealNs == {0, 40, 2500, 864, 896, 897}
           \cup UNION {{Fit(RealBuf, t, eb) + d : d \in (-1..2) \cup {RealBuf.grow, RealBuf.grow + 1}} : t \in Joined, eb \in {1, 2}}
 RealBufs == {[RealBuf EXCEPT !.cap = c] : c \in {1024, 1152} \cup (IF Q THEN {} ELSE {1280, 2048})}
 
-Jobs == {[file |-> f, B |-> b] : f \in FilesOf(SmallNs, IF Q THEN 2 ELSE 3, IF Q THEN {FALSE} ELSE BOOLEAN, BOOLEAN), b \in SmallBufs}
-        \cup {[file |-> f, B |-> b] : f \in FilesOf(RealNs, 2, {FALSE}, IF Q THEN {FALSE} ELSE BOOLEAN), b \in RealBufs}
-
-Init == \E j \in Jobs : file = j.file /\ B = j.B /\ rs = <<>>
+Init == /\ rs = <<>>
+        /\ \/ B \in SmallBufs /\ IsFileOf(SmallNs, 2, BOOLEAN, BOOLEAN)
+           \/ ~Q /\ B \in SmallBufs /\ IsFileOf(SmallNs, 3, {FALSE}, BOOLEAN)
+           \/ B \in RealBufs /\ IsFileOf(RealNs, 2, {FALSE}, IF Q THEN {FALSE} ELSE BOOLEAN)
 Next == rs = <<>> /\ rs' = ReadFile(file, B) /\ UNCHANGED <<file, B>>
 
 Shaped == WellShaped(file)
